@@ -34,6 +34,7 @@ RULE = (
 )
 RULE += " " + ('Further operations: new_instance (another Aspire object with its own, never fitted, supplied proposal takes over the file), sampling without a fit for supplied proposals, and sample steps interrupted by an exception at a generated likelihood call (the invariant is checked on the file the interrupted run leaves).')
 RULE += " " + ('fit and sample may also name a SECOND file explicitly (inside or outside a context on the first one); the invariant is checked on both files.')
+RULE += " " + ('Contexts may also be opened on the second file.')
 ASSUMPTIONS = [
     "kernel packages are harness doubles; N=12 particles, 1 kernel step, fixed 2-step schedule",
     "save_config=False is only generated when the file's configuration already names the sampler about to run (otherwise the "
